@@ -358,6 +358,14 @@ fn judge_kill(c: &KillCase, rec: &mut Rec) -> Verdict {
             if e.sys == Sys::Mkdir && !e.ok() {
                 continue;
             }
+            // a numbered backup: the old destination file is renamed to <mapped destination>.~N~
+            if e.sys == Sys::Rename && !b.inv.backup.is_empty() && super::c04::is_backup_name(&rel) {
+                if let Some(old) = e.path2.as_ref().and_then(|p| real_rel(&root, p)) {
+                    if dsts.contains(&old) && rel.starts_with(&old) {
+                        continue;
+                    }
+                }
+            }
             if !dsts.contains(&rel) {
                 return Verdict::faild(
                     format!("C03|trace|{}|mutating-call-outside-destination", driver),
